@@ -101,6 +101,15 @@ def corpus_histories():
         for g in ("day", "month"):
             out.append({"gran": g, "cli": False, "ops": [("append", [(1, first - 40, 0, 3), (2, first, 0, 10), (3, first + 5, 1, 4), (4, wm, 0, 7)]), ("full",),
                                                          ("update", {2: 99}), ("append", [(5, first, 1, 6)]), ("merge_m", 1), ("merge_m", 1)]})
+    # NULL dimension values inside the merge window, and an update that EMPTIES a (bucket, dimension) group inside it: merge must still equal the full rollup and be idempotent
+    d1 = dn(datetime.date(2024, 4, 8))
+    for g in ("day", "week", "month"):
+        for cli in (False, True):
+            m1 = ("cli", "merge") if cli else ("merge", 7)
+            out.append({"gran": g, "cli": cli, "ops": [("append", [(1, d1, 0, 5), (2, d1, None, 7), (3, d1 + 1, None, 2), (4, d1 + 1, 1, 3)]), ("cli", "full") if cli else ("full",),
+                                                       ("append", [(5, d1 + 1, None, 11)]), m1, m1, ("update", {2: 9}), m1]})
+            out.append({"gran": g, "cli": cli, "ops": [("append", [(1, d1, 0, 5), (2, d1, 1, 7), (3, d1 + 1, 0, 2), (4, d1 + 1, 1, 3)]), ("cli", "full") if cli else ("full",),
+                                                       ("recat", {4: 0}), m1, m1, ("recat", {2: None}), m1]})
     return out
 
 
@@ -129,13 +138,18 @@ def coq_history(h, month_days=()):
     for op in h["ops"]:
         if op[0] == "append":
             for (i, d, c, v) in op[1]:
-                base[i] = (d, c, v)
-            ops.append("SetBase [%s]" % "; ".join("B (%d) %d (%d)" % base[i] for i in sorted(base)))
+                base[i] = (d, -1 if c is None else c, v)
+            ops.append("SetBase [%s]" % "; ".join("B (%d) (%d) (%d)" % base[i] for i in sorted(base)))
+        elif op[0] == "recat":
+            for i, cat in op[1].items():
+                if i in base:
+                    base[i] = (base[i][0], -1 if cat is None else cat, base[i][2])
+            ops.append("SetBase [%s]" % "; ".join("B (%d) (%d) (%d)" % base[i] for i in sorted(base)))
         elif op[0] == "update":
             for i, v in op[1].items():
                 if i in base:
                     base[i] = (base[i][0], base[i][1], v)
-            ops.append("SetBase [%s]" % "; ".join("B (%d) %d (%d)" % base[i] for i in sorted(base)))
+            ops.append("SetBase [%s]" % "; ".join("B (%d) (%d) (%d)" % base[i] for i in sorted(base)))
         elif op[0] == "full":
             ops.append("Full")
         elif op[0] == "incr":
@@ -196,7 +210,7 @@ def fetch_rollup(con, g):
     for b, c, s, n in rows:
         if isinstance(b, datetime.datetime):
             b = b.date()
-        out.append((dn(b), c, int(s) if s is not None else None, n))
+        out.append((dn(b), -1 if c is None else c, int(s) if s is not None else None, n))       # a NULL dimension value is its own group: code -1 (the model's)
     return out
 
 
@@ -206,7 +220,7 @@ def fresh_full(con, model, pre, g):
     for b, c, s, n in rows:
         if isinstance(b, datetime.datetime):
             b = b.date()
-        out.append((dn(b), c, int(s) if s is not None else None, n))
+        out.append((dn(b), -1 if c is None else c, int(s) if s is not None else None, n))
     return sorted(out)
 
 
@@ -240,6 +254,11 @@ def run_impl(h, workdir):
         if op[0] == "update":
             for i, v in op[1].items():
                 con.execute("update ev set v = ? where id = ?", [v, i])
+            prev_refresh_changed = True
+            continue
+        if op[0] == "recat":
+            for i, cat in op[1].items():
+                con.execute("update ev set cat = ? where id = ?", [cat, i])
             prev_refresh_changed = True
             continue
         # ---- a refresh: decide, from the real tables, what the property promises for it
@@ -312,7 +331,7 @@ def _full_of(con, table, g):
     for b, c, s, n in rows:
         if isinstance(b, datetime.datetime):
             b = b.date()
-        out.append((dn(b), c, int(s), n))
+        out.append((dn(b), -1 if c is None else c, int(s), n))
     return out
 
 
@@ -469,7 +488,7 @@ def replay(path):
     try:
         h = r["history"]
         h["ops"] = [tuple(o) if o[0] != "update" else ("update", {int(k): v for k, v in o[1].items()}) for o in h["ops"]]
-        h["ops"] = [(o[0], [tuple(x) for x in o[1]]) if o[0] == "append" else o for o in h["ops"]]
+        h["ops"] = [(o[0], [tuple(x) for x in o[1]]) if o[0] == "append" else (("recat", {int(k): v for k, v in o[1].items()}) if o[0] == "recat" else o) for o in h["ops"]]
         steps = run_impl(h, workdir)
         st = steps[r["step"]]
         print(json.dumps(st, default=str, indent=1)[:2500])
